@@ -204,6 +204,8 @@ trait Pending {
     fn waker(&self, b: &mut Backend, w: &Waker);
     fn cancel(self: Box<Self>, b: &mut Backend) -> Option<Done>;
     fn token(&self, b: &mut Backend) -> Option<Cancel>;
+    /// future mode: from now on the future is polled under this (new) task waker
+    fn retask(&mut self, _w: Arc<CountWaker>) {}
 }
 
 struct Held<T: OpCode + 'static> {
@@ -311,6 +313,10 @@ impl Pending for HeldFut {
 
     fn token(&self, _: &mut Backend) -> Option<Cancel> {
         None
+    }
+
+    fn retask(&mut self, w: Arc<CountWaker>) {
+        self.waker = w;
     }
 }
 
@@ -441,7 +447,8 @@ struct OpRec {
     kind: Kind,
     pending: Option<Box<dyn Pending>>,
     lazy: bool,
-    waker: Option<Arc<CountWaker>>,
+    /// every waker this operation was given, oldest first (the last one is the task that owns it now)
+    wakers: Vec<Arc<CountWaker>>,
     gate: Option<mpsc::Sender<()>>,
     done: bool,
     dropped: bool,
@@ -588,11 +595,11 @@ impl World {
                 })
             }
         };
-        let mut rec = OpRec { kind, pending: None, lazy, waker: None, gate, done: false, dropped: false, cancel_requested: false, polled_wakes: 0 };
+        let mut rec = OpRec { kind, pending: None, lazy, wakers: vec![], gate, done: false, dropped: false, cancel_requested: false, polled_wakes: 0 };
         match pushed {
             Pushed::Pending(pd, cw) => {
                 rec.pending = Some(pd);
-                rec.waker = cw;
+                rec.wakers.extend(cw);
                 if !lazy {
                     self.live.push(id);
                 }
@@ -684,7 +691,7 @@ impl World {
     }
 
     fn wakes(&self, id: usize) -> usize {
-        self.ops[&id].waker.as_ref().map(|w| w.0.load(Ordering::SeqCst)).unwrap_or(0)
+        self.ops[&id].wakers.iter().map(|w| w.0.load(Ordering::SeqCst)).sum()
     }
 
     /// `Proactor::pop` on one key; `Some(report)` when it was ready
@@ -710,8 +717,18 @@ impl World {
                 }
                 let w = self.wakes(id);
                 // waker monitor: a registered waker is woken exactly once by the completion
-                if self.ops[&id].waker.is_some() && w != 1 && !matches!(self.ops[&id].kind, Kind::RMulti(_)) {
-                    ex.fail("C02:wake", format!("op {id} completed, its registered waker was woken {w} times"));
+                if !self.ops[&id].wakers.is_empty() && !matches!(self.ops[&id].kind, Kind::RMulti(_)) {
+                    let counts: Vec<usize> = self.ops[&id].wakers.iter().map(|w| w.0.load(Ordering::SeqCst)).collect();
+                    let latest = *counts.last().unwrap();
+                    if w != 1 {
+                        ex.fail("C02:wake", format!("op {id} completed, its registered waker was woken {w} times"));
+                    } else if latest != 1 {
+                        // exactly one wake-up happened, but it went to a waker that had been replaced
+                        ex.fail(
+                            "C02:stale-waker",
+                            format!("op {id} completed: wake counts per registered waker (oldest first) {counts:?}; the latest waker was not woken, a replaced one was"),
+                        );
+                    }
                 }
                 let s = self.account(id, d, ex);
                 Some(format!("{id}={s}:w{w}"))
@@ -782,7 +799,7 @@ impl World {
     }
 
     fn total_wakes(&self) -> usize {
-        self.ops.values().filter_map(|o| o.waker.as_ref()).map(|w| w.0.load(Ordering::SeqCst)).sum()
+        self.ops.values().flat_map(|o| o.wakers.iter()).map(|w| w.0.load(Ordering::SeqCst)).sum()
     }
 
     /// poll until the driver has nothing more to do
@@ -1102,16 +1119,34 @@ fn exec_inner(case: &Case) -> Exec {
                     }
                     ["waker", k] => {
                         let id: usize = k.parse().unwrap();
+                        // every `waker k` line hands the operation a NEW waker: another task owns it now
+                        let cw = Arc::new(CountWaker(AtomicUsize::new(0)));
+                        let mut out = "ok".to_string();
                         if wd.fut {
-                            // the future registers the task's waker itself
+                            // future mode: the same `Submit` future is polled again under the new waker
+                            let live = wd.live.contains(&id);
+                            if let Some(rec) = wd.ops.get_mut(&id) {
+                                if live && rec.pending.is_some() {
+                                    rec.pending.as_mut().unwrap().retask(cw.clone());
+                                    rec.wakers.push(cw);
+                                    ex.tag("rewaker");
+                                    if let Some(s) = wd.try_pop(id, &mut ex) {
+                                        wd.live.retain(|x| *x != id);
+                                        out = format!("ok {s}");
+                                    }
+                                }
+                            }
                         } else if let Some(rec) = wd.ops.get_mut(&id) {
                             if let Some(pd) = &rec.pending {
-                                let cw = rec.waker.get_or_insert_with(|| Arc::new(CountWaker(AtomicUsize::new(0)))).clone();
+                                if !rec.wakers.is_empty() {
+                                    ex.tag("rewaker");
+                                }
+                                rec.wakers.push(cw.clone());
                                 pd.waker(&mut wd.p, &Waker::from(cw));
                                 ex.tag("waker");
                             }
                         }
-                        "ok".into()
+                        out
                     }
                     ["poll"] => {
                         let r = wd.poll_once(Duration::ZERO);
@@ -1411,6 +1446,12 @@ fn gen_random(rng: &mut Rng, idx: usize) -> Case {
                 }
             }
         } else if roll < 84 {
+            // sometimes the operation changes hands first: a new waker for an outstanding key / future
+            if g.rng.chance(1, 4) && !g.pending.is_empty() {
+                let i = g.rng.below(g.pending.len() as u64) as usize;
+                let id = g.pending[i];
+                g.lines.push(format!("waker {id}"));
+            }
             g.polls();
         } else if roll < 88 {
             // (end-of-stream on sockets is left out: what a half-closed AF_UNIX peer reports to a
@@ -1693,6 +1734,50 @@ fn gen_stolen(rng: &mut Rng, idx: usize) -> Case {
     Case { name: format!("stolen{idx}"), lines }
 }
 
+/// an operation that changes hands before it completes: polled / registered under waker A, then under
+/// waker B (the future was moved into another task, a select loser handed on, a hand-written poll_fn), then
+/// the data arrives: exactly B must be woken
+fn gen_rewake(rng: &mut Rng, idx: usize) -> Case {
+    let iour = rng.chance(1, 2);
+    let fut = rng.chance(1, 2);
+    let cap = *rng.pick(&[1u32, 2, 4, 1024]);
+    let mut lines = vec![format!("cfg {} {cap}{}", if iour { "iour" } else { "poll" }, if fut { " fut" } else { "" })];
+    let n = rng.range(1, 3) as usize;
+    for c in 0..n {
+        lines.push(format!("{} {c}", if rng.chance(1, 2) { "sock" } else { "rpipe" }));
+    }
+    for c in 0..n {
+        let op = if lines[1 + c].starts_with("sock") && rng.chance(1, 2) { "recv" } else { "read" };
+        lines.push(format!("push {c} {op} {c} {}", rng.range(1, 4)));
+        if rng.chance(3, 4) {
+            lines.push(format!("waker {c}"));
+        }
+    }
+    if rng.chance(1, 2) {
+        lines.push("settle".into());
+    }
+    // hand the operations on, some of them more than once
+    for c in 0..n {
+        for _ in 0..rng.range(0, 2) {
+            lines.push(format!("waker {c}"));
+            if rng.chance(1, 3) {
+                lines.push("settle".into());
+            }
+        }
+    }
+    let mut order: Vec<usize> = (0..n).collect();
+    for i in (1..order.len()).rev() {
+        let j = rng.below(i as u64 + 1) as usize;
+        order.swap(i, j);
+    }
+    for (i, c) in order.iter().enumerate() {
+        lines.push(format!("feed {c} {:02x}{:02x}", 0x50 + i, 0x60 + i));
+        lines.push("settle".into());
+    }
+    lines.push("settle".into());
+    Case { name: format!("rewake{idx}"), lines }
+}
+
 /// the multi-descriptor operation (Splice) with the two ends becoming ready in either order
 fn gen_splice(rng: &mut Rng, idx: usize, order: u64) -> Case {
     let mut lines = vec!["cfg poll 1024".to_string(), "rpipe 0".into(), "wpipe 1".into(), "fill 1".into()];
@@ -1907,6 +1992,9 @@ fn generate(tier: &str, rng: &mut Rng) -> Vec<Case> {
     }
     for i in 0..120 * scale {
         cases.push(gen_stolen(&mut rng.fork(), i));
+    }
+    for i in 0..100 * scale {
+        cases.push(gen_rewake(&mut rng.fork(), i));
     }
     for i in 0..60 * scale {
         cases.push(gen_jobs(&mut rng.fork(), i));
